@@ -66,7 +66,8 @@ type values struct {
 }
 
 var numLits = []float64{0, 1, 2, 3, 5, 7, 10, 0.5, 0.25, 1.5, 2.5, 7.5, 100, 255, 1000000}
-var strLits = []string{"", "a", "b", "ab", "abc", "A", "é", "0", "x y", "it's"}
+// numeric-looking strings stay strings: '01' != '1', '1.0' != '1', '10' < '9'
+var strLits = []string{"", "a", "b", "ab", "abc", "A", "é", "0", "x y", "it's", "1", "01", "1.0", "+1", "1e1", "10", "-0", "9"}
 var numFields = []string{"A", "B", "C", "D", ""}
 var strFields = []string{"S", "T"}
 
@@ -174,6 +175,16 @@ func quoteStr(s string) string {
 	return "'" + strings.ReplaceAll(s, "'", `\'`) + "'"
 }
 
+// arg prints a function argument; in the redundant mode a compound argument is one
+// parenthesised group whose inside relies on precedence: in(($+1*2),5).
+func (p *printer) arg(n *node) string {
+	s := p.print(n, 0, false)
+	if p.mode == 2 && n.l != nil && n.r != nil {
+		return "(" + s + ")"
+	}
+	return s
+}
+
 func (p *printer) atom(n *node) (string, bool) {
 	switch n.op {
 	case "lit":
@@ -191,11 +202,11 @@ func (p *printer) atom(n *node) (string, bool) {
 		}
 		return "(" + n.fld + ")$", true
 	case "len":
-		return "len(" + p.print(n.args[0], 0, false) + ")", true
+		return "len(" + p.arg(n.args[0]) + ")", true
 	case "regexp":
-		return "regexp(" + quoteStr(n.str) + "," + p.spaces() + p.print(n.args[0], 0, false) + ")", true
+		return "regexp(" + quoteStr(n.str) + "," + p.spaces() + p.arg(n.args[0]) + ")", true
 	case "in":
-		s := "in(" + p.print(n.args[0], 0, false)
+		s := "in(" + p.arg(n.args[0])
 		for _, l := range n.lits {
 			s += "," + p.spaces() + p.print(l, 0, false)
 		}
@@ -476,6 +487,37 @@ func TestC20Typed(t *testing.T) {
 		depth := rapid.IntRange(1, maxDepth()).Draw(t, "depth")
 		tree := genBool(t, depth)
 		v := genValues(t)
+		// make membership tests decisive: the first enumerated literal of an in() is (mostly) the
+		// value its first argument really has, so a mis-evaluated argument flips the verdict
+		hitMask := rapid.Uint64().Draw(t, "inHitMask")
+		nIn := 0
+		var fixIn func(n *node)
+		fixIn = func(n *node) {
+			if n == nil {
+				return
+			}
+			if n.op == "in" && len(n.lits) > 0 {
+				nIn++
+				if hitMask>>(uint(nIn)%64)&1 == 1 {
+					c := &evalCtx{v: v}
+					if n.lits[0].k == kNum {
+						if x := c.num(n.args[0]); !c.undefined && !math.IsNaN(x) && !math.IsInf(x, 0) && math.Abs(x) < 1e15 {
+							n.lits[0] = &node{op: "lit", k: kNum, num: x}
+						}
+					} else {
+						if x := c.str(n.args[0]); !c.undefined {
+							n.lits[0] = &node{op: "lit", k: kStr, str: x}
+						}
+					}
+				}
+			}
+			fixIn(n.l)
+			fixIn(n.r)
+			for _, a := range n.args {
+				fixIn(a)
+			}
+		}
+		fixIn(tree)
 		sp := rapid.SampledFrom([]string{"", " ", "  "}).Draw(t, "spacing")
 		mask := rapid.Uint64().Draw(t, "parenMask")
 		bit := 0
